@@ -52,8 +52,8 @@ class StructModel:
             if f.default is attrs.NOTHING and f.init:
                 ctor.append(z3.Not(self.has.get(f.name, z3.BoolVal(False))))
         errs = list(self.keyerrors) + ctor
-        if self.extra_error is not None:
-            errs.append(self.extra_error)
+        if self.extra_error is not None and not isinstance(self.extra_error, str):
+            errs.append(self.extra_error)  # ("pending" is resolved by finalize_extra once the key universe is known)
         self.error = z3.Or(*errs) if errs else z3.BoolVal(False)
 
     def pres(self, w):
